@@ -563,6 +563,9 @@ const WALK_RULES: &[Option<&str>] = &[
     Some("4294967296"),
     Some("4294967295"),
     Some(".cfa 4294967296 + 4294967296 -"),
+    // the very last word of the thread's stack memory, and the word that would lie one past it
+    Some("{LAST} ^"),
+    Some("{LAST} {W} + ^"),
 ];
 /// rule menus of the label-spelling spaces (every rule is written under each spelling of its register): saved on
 /// the stack, two failing rules, computed from another register, and values around the 32-bit register width.
@@ -592,6 +595,7 @@ fn walk_subst(cpu: &WalkCpu, t: &str) -> String {
         .replace("{SP}", cpu.sp)
         .replace("{FP}", cpu.fp)
         .replace("{S}", cpu.sigil)
+        .replace("{LAST}", &(STACK + (WALK_WORDS - 1) * cpu.w).to_string())
         .replace("{HU}", &cpu.helper.to_uppercase())
         .replace("{H}", cpu.helper)
 }
